@@ -95,6 +95,7 @@ ComputeClauses(T, i, j) ==
                     Shrinks(TabOf(e.tabs[j - 1]), post, T.tol))
       \cup Fail("C04", "RefinesModel", j, (exact /\ comp = "sam" /\ MinimalKnown(post)) => post = Canonical(comp, r, K, v))
       \* gaps of the fresh table (C07), exact numerators against the specification
+      \cup Fail("C07", "GapFunctionsLeaveGameUntouched", j, o.g.pure = 1)
       \cup Fail("C07", "GapNonNegative", j,
                 (inCls /\ o.g.has = 1) => (o.g.en[2] >= 0 /\ o.g.l1[2] >= 0 /\ o.g.linf[2] >= 0 /\ o.g.l2[2] >= 0))
       \cup Fail("C07", "GapRefinesSpec", j,
